@@ -48,6 +48,13 @@ VEul(a, b, c)      == DoV("v-eul", [phi |-> a, theta |-> b, psi |-> c])
 VAngVec(a, dir, len) == DoV("v-angvec", [a |-> a, dir |-> dir, len |-> len])
 VOA(o, a, lo, la)  == DoV("v-oa", [o |-> o, a |-> a, lo |-> lo, la |-> la])
 VPose(ax, a, dir, tm) == DoV("v-pose", [ax |-> ax, a |-> a, dir |-> dir, tm |-> tm])
+\* interpolation as a constructor of group members (C01) : relative rotation angle tag d between the
+\* end points, interpolation parameter tag s, with / without an explicit start, per entry point
+InterpEntries == {"SO2", "SE2", "SO3", "SE3", "UnitQuaternion", "trinterp(R)", "trinterp(T)",
+                  "trinterp2(R)", "trinterp2(T)", "slerp"}
+DTags == {"1e-12", "1e-9", "1e-6", "1e-4", "1e-3", "1e-2", "0.05", "0.5", "2", "pi-1e-6"}
+STags == {"0", "1e-12", "0.25", "0.5", "0.9", "1-1e-12", "1"}
+VInterp(c, dt, st, ws, dir) == DoV("v-interp", [entry |-> c, d |-> dt, s |-> st, start |-> ws, dir |-> dir])
 
 Next ==
   \/ \E ax \in {"x", "y", "z"} : \E a \in VTags1 : VRot(ax, a)
@@ -57,6 +64,8 @@ Next ==
   \/ \E o \in Dirs : \E a \in Dirs : \E lo \in VLens : \E la \in VLens :
         Cross(o, a) # <<0,0,0>> /\ VOA(o, a, lo, la)
   \/ \E ax \in {"x", "y", "z"} : \E a \in VTags1 : \E dir \in Dirs : \E tm \in VTrans : VPose(ax, a, dir, tm)
+  \/ \E c \in InterpEntries : \E dt \in DTags : \E st \in STags : \E ws \in BOOLEAN :
+        \E dir \in {<<1,0,0>>, <<1,-2,3>>} : VInterp(c, dt, st, ws, dir)
   \/ \E ax \in {"x", "y", "z"} : \E g \in Ang1 : CRot(ax, g)
   \/ \E o \in OrderNames : \E r \in Ang3 : \E p \in Ang3 : \E y \in Ang3 : CRPY(o, r, p, y)
   \/ \E a \in Ang3 : \E b \in Ang3 : \E c \in Ang3 : CEul(a, b, c)
